@@ -9,6 +9,8 @@ import (
 	"os"
 
 	pr "github.com/benoitkugler/webrender/css/properties"
+	bo "github.com/benoitkugler/webrender/html/boxes"
+	"github.com/benoitkugler/webrender/html/tree"
 	"github.com/benoitkugler/webrender/logger"
 	mt "github.com/benoitkugler/webrender/matrix"
 )
@@ -373,3 +375,69 @@ func vShadedColours() (n int, fails []string) {
 
 //@ bounded vShadedColours styledColor on every colour over seven values per component (negative and above 1 included) x five border styles x four sides: every component of the shaded colours is finite
 //@   props C14
+
+// bounded stand-in (C16): the classification of child stacking contexts. NewStackingContext splits the child
+// contexts by the sign of their z-index and sorts the negative and the positive ones with a stable library
+// sort, outside the contracts. vStackingOrder runs it on every list of up to five child contexts with
+// z-indexes in -2..2 and compares the three lists with CSS 2.1 Appendix E: negative z-indexes in ascending
+// order, then z-index 0 in tree order, then positive z-indexes ascending, ties in tree order.
+func vStackingOrder() (n int, fails []string) {
+	style := tree.ComputedFromCascaded(nil, nil, nil, nil)
+	parent := bo.NewBlockBox(style, nil, "", nil)
+	boxes := make([]Box, 5)
+	for i := range boxes {
+		boxes[i] = bo.NewBlockBox(style, nil, "", nil)
+	}
+	var rec func(zs []int)
+	rec = func(zs []int) {
+		n++
+		children := make([]StackingContext, len(zs))
+		for i, z := range zs {
+			children[i] = StackingContext{box: boxes[i], zIndex: z}
+		}
+		sc := NewStackingContext(parent, children, nil, nil, nil, nil)
+		var want [3][]int // indexes into zs
+		for _, z := range []int{-2, -1} {
+			for i, zi := range zs {
+				if zi == z {
+					want[0] = append(want[0], i)
+				}
+			}
+		}
+		for i, zi := range zs {
+			if zi == 0 {
+				want[1] = append(want[1], i)
+			}
+		}
+		for _, z := range []int{1, 2} {
+			for i, zi := range zs {
+				if zi == z {
+					want[2] = append(want[2], i)
+				}
+			}
+		}
+		for k, got := range [3][]StackingContext{sc.negativeZContexts, sc.zeroZContexts, sc.positiveZContexts} {
+			ok := len(got) == len(want[k])
+			for j := 0; ok && j < len(got); j++ {
+				ok = got[j].box == boxes[want[k][j]] && got[j].zIndex == zs[want[k][j]]
+			}
+			if !ok && len(fails) < 5 {
+				fails = append(fails, fmt.Sprintf("z-indexes %v: list %d (negative, zero, positive) is not the children %v in that order", zs, k, want[k]))
+			}
+		}
+		if sc.zIndex != 0 && len(fails) < 5 {
+			fails = append(fails, "z-index auto of the parent is not 0")
+		}
+		if len(zs) == 5 {
+			return
+		}
+		for z := -2; z <= 2; z++ {
+			rec(append(zs, z))
+		}
+	}
+	rec(make([]int, 0, 5))
+	return n, fails
+}
+
+//@ bounded vStackingOrder NewStackingContext on every list of up to five child contexts with z-indexes in -2..2 (3 906 lists): negative ascending, zero in tree order, positive ascending, ties in tree order
+//@   props C16
